@@ -179,9 +179,14 @@ def case_docs(names, r):
             docs.append(("pre-quoted", "{ " + N.nix_quote(n) + " = 0; }", ()))
             if n not in KEYWORDS:
                 docs.append(("pre-bare-path-quoted", "{ " + n + " = 0; }", (0,)))
-        elif cst.valid("{ " + n + " = 0; }") and cst.flat_paths(cst.attr_items(cst.parse("{ " + n + " = 0; }"), cst.top_expressions(cst.parse("{ " + n + " = 0; }"))[0])).keys() == {(n,)}:
-            # bare spelling Nix accepts although the path must quote it (foo-bar)
-            docs.append(("pre-bare-hyphen", "{ " + n + " = 0; }", ()))
+        else:
+            # bare spelling Nix accepts although the path must quote it (foo-bar); a dynamic `${x}` is not a spelling of a name
+            t = cst.parse("{ " + n + " = 0; }")
+            if cst.valid(t):
+                tops = cst.top_expressions(t)
+                its = cst.attr_items(t, tops[0]) if len(tops) == 1 and tops[0].type == "attrset_expression" else []
+                if len(its) == 1 and its[0].path == (n,) and its[0].kinds == ("bare",):
+                    docs.append(("pre-bare-hyphen", "{ " + n + " = 0; }", ()))
     return docs
 
 
